@@ -1,5 +1,5 @@
 (* FitMask — the "remove extended objects" step of Models.fit (aperture-dependent branch, remove_resolved=True):
-     reset = np.any(self.extended[:, :, source.valid > 0], axis=2);  ch_best[reset] = np.inf
+     used = (valid > 0) & (valid != 9) & ~(limit & (error == 0));  reset = np.any(self.extended[:, :, used], axis=2);  ch_best[reset] = np.inf
    followed by the argmin over the distance grid.  The mask `extended` itself (find_radius_sigma on the interpolated fluxes) is
    NOT modelled: it is an input here (the correspondence check passes the implementation's own array). *)
 From Coq Require Import QArith Lqa Lia List Bool ZArith.
@@ -7,10 +7,51 @@ Import ListNotations.
 Open Scope Q_scope.
 From SedV Require Import Clamp FitCore Flags Fit3 PLin Xnum Argsort FilterOut FitModel Fit3Proofs.
 
-(* one (model, distance) entry is reset when some band with valid > 0 is flagged extended *)
+(* one (model, distance) entry is reset when some band that constrains the fit is flagged extended.  A band constrains the fit
+   when it is fitted (flags 1, 4; any other positive flag the reader let through counts too, as in the code) or is a limit
+   (2, 3) with non-zero confidence; flags 0 and 9 never do (C03). *)
 Fixpoint any_ext (vpos ext : list bool) : bool :=
   match vpos, ext with v :: vs, e :: es => (v && e) || any_ext vs es | _, _ => false end.
-Definition valid_pos (raws : list rawband) : list bool := map (fun r => (0 <? rb_flag r)%Z) raws.
+Definition band_used (r : rawband) : bool :=
+  let f := rb_flag r in
+  (0 <? f)%Z && negb (f =? 9)%Z && negb (((f =? 2)%Z || (f =? 3)%Z) && Qeq_bool (rb_err r) 0).
+Definition valid_pos (raws : list rawband) : list bool := map band_used raws.
+
+(* C03 on this step: a band flagged 0 or 9, or a limit with confidence 0, is not looked at, whatever it carries and whatever
+   the mask says about it; so two sources that differ only in such bands have the same models removed. *)
+Lemma band_used_0 r : rb_flag r = 0%Z -> band_used r = false.
+Proof. intro H. unfold band_used. rewrite H. reflexivity. Qed.
+Lemma band_used_9 r : rb_flag r = 9%Z -> band_used r = false.
+Proof. intro H. unfold band_used. rewrite H. reflexivity. Qed.
+Lemma band_used_conf0 r : (rb_flag r = 2 \/ rb_flag r = 3)%Z -> rb_err r == 0 -> band_used r = false.
+Proof.
+  intros H E. unfold band_used. apply Qeq_bool_iff in E. rewrite E.
+  destruct H as [H|H]; rewrite H; reflexivity.
+Qed.
+Lemma band_used_fitted r : (rb_flag r = 1 \/ rb_flag r = 4)%Z -> band_used r = true.
+Proof. intros [H|H]; unfold band_used; rewrite H; reflexivity. Qed.
+Lemma band_used_limit r : (rb_flag r = 2 \/ rb_flag r = 3)%Z -> ~ rb_err r == 0 -> band_used r = true.
+Proof.
+  intros H E. unfold band_used.
+  assert (Qeq_bool (rb_err r) 0 = false) as ->.
+  { destruct (Qeq_bool (rb_err r) 0) eqn:B; [|reflexivity]. apply Qeq_bool_iff in B. contradiction. }
+  destruct H as [H|H]; rewrite H; reflexivity.
+Qed.
+
+(* what the step depends on: the used/unused pattern of the source and the mask entries of the used bands, nothing else *)
+Inductive same_use : list rawband -> list bool -> list rawband -> list bool -> Prop :=
+| su_nil : same_use [] [] [] []
+| su_unused r r' e e' raws ext raws' ext' : band_used r = false -> band_used r' = false ->
+    same_use raws ext raws' ext' -> same_use (r :: raws) (e :: ext) (r' :: raws') (e' :: ext')
+| su_used r r' e raws ext raws' ext' : band_used r = true -> band_used r' = true ->
+    same_use raws ext raws' ext' -> same_use (r :: raws) (e :: ext) (r' :: raws') (e :: ext').
+
+Theorem any_ext_same_use raws ext raws' ext' : same_use raws ext raws' ext' ->
+  any_ext (valid_pos raws) ext = any_ext (valid_pos raws') ext'.
+Proof.
+  induction 1 as [|r r' e e' raws ext raws' ext' Hr Hr' _ IH|r r' e raws ext raws' ext' Hr Hr' _ IH]; [reflexivity| |];
+    unfold valid_pos in *; cbn [map any_ext]; rewrite Hr, Hr', IH; reflexivity.
+Qed.
 
 Definition masked (m : bool) (x : Q * xnum) : Q * xnum := if m then (fst x, PInf) else x.
 Fixpoint zipmask (ms : list bool) (res : list (Q * xnum)) : list (Q * xnum) :=
